@@ -95,9 +95,16 @@ Definition worst (l : list N) : N := fold_left worse l 0.
 (* ---- registration ---- *)
 Record rstate := { rs_acc : list (decl N); rs_trie : node N; rs_codes : list N; rs_stop : bool }.
 
+(* once a registration step has been judged a violation or a divergence the
+   model and the implementation no longer hold the same table: the rest of the
+   history is not judged *)
+Definition has_bad (l : list N) : bool := existsb (fun c => (c =? 1) || (c =? 2)) l.
+
 Definition reg_step (st : rstate) (pe : str * ep) (code : N) : rstate :=
-  if rs_stop st then {| rs_acc := rs_acc st; rs_trie := rs_trie st;
-                        rs_codes := V_MALFORMED :: rs_codes st; rs_stop := true |}
+  if rs_stop st then
+    (if has_bad (rs_codes st) then st
+     else {| rs_acc := rs_acc st; rs_trie := rs_trie st;
+             rs_codes := V_MALFORMED :: rs_codes st; rs_stop := true |})
   else
   match parse_template (fst pe) with
   | Err c =>
@@ -256,7 +263,8 @@ Definition judge_detail_c02 (c : rcase) : list N :=
       let st := reg_all {| rs_acc := []; rs_trie := empty_node N; rs_codes := []; rs_stop := false |}
                         eps codes in
       let regv := rev (rs_codes st) in
-      if rs_stop st || negb (length codes =? length eps)%nat then
+      if has_bad regv then regv
+      else if rs_stop st || negb (length codes =? length eps)%nat then
         regv ++ (match os with [] => [] | _ => [V_MALFORMED] end)
       else
         let versioned := existsb (fun v => match v with Some _ => true | None => false end) versions in
